@@ -123,7 +123,11 @@ impl EventLoop {
     pub fn clean(&mut self) {
         self.network = None;
         self.keepalive_timeout = None;
+        // what the state still holds was sent before anything that is still pending
+        // (pending may hold requests that never got a packet id): keep that order
+        let carried_over = std::mem::take(&mut self.pending);
         self.pending.extend(self.state.clean());
+        self.pending.extend(carried_over);
 
         // drain requests from channel which weren't yet received
         let mut requests_in_channel: Vec<_> = self.requests_rx.drain().collect();
